@@ -345,6 +345,20 @@ end E3nnVerif.Cert.LIN.{prop}.{name}
 """
 
 
+def emit_chain(names):
+    """the end-to-end theorems of Props/C08.lean instantiated at every certified program of the run"""
+    L = ["import E3nnVerif.Props.C08"] + [f"import E3nnVerif.Cert.LIN.C08.{n}" for n in names]
+    L += ["/- generated by harness/linear_family.py: for every certified program of this run, the closed statements",
+          "   `<name>_is_block_map`  : Props.C08.IsBlockMap  (∀ env t, output entry t = the documented block map of the encoded x, W, bias)",
+          "   `<name>_equivariant`   : Props.C08.Equivariant (∀ D with D (0, even) = (1), ∀ env t, output(actEnv D env)[t] = Σ_j D[i, j] · output(env)[(.., j)]) -/",
+          "namespace E3nnVerif.Cert.LIN.C08.Chain", "open E3nnVerif.Props.C08 E3nnVerif.Generated.LIN", ""]
+    for n in names:
+        L.append(f"theorem {n}_is_block_map : IsBlockMap {n}.cfg {n}.prog := isBlockMap_of_certs _ _ {n}.spec_ok {n}.block_ok")
+        L.append(f"theorem {n}_equivariant : Equivariant {n}.cfg {n}.prog := equivariant_of_certs _ _ {n}.spec_ok {n}.block_ok {n}.valid_ok")
+    L += ["", "end E3nnVerif.Cert.LIN.C08.Chain", ""]
+    return "\n".join(L)
+
+
 def _write_if_changed(p, txt):
     if not p.exists() or p.read_text() != txt:
         p.parent.mkdir(parents=True, exist_ok=True)
@@ -389,6 +403,14 @@ def prepare(ctx, o3, props, extra_random=0):
             _write_if_changed(cert_dir / prop / f"{n}.lean", emit_cert(prop, n))
         _write_if_changed(cert_dir / prop / "All.lean", "\n".join(f"import E3nnVerif.Cert.LIN.{prop}.{n}" for n in fixed) + "\n")
         _write_if_changed(cert_dir / prop / "Rand.lean", "\n".join(f"import E3nnVerif.Cert.LIN.{prop}.{n}" for n in rand) + "\n")
+    if "C08" in props:
+        _write_if_changed(cert_dir / "C08" / "Chain.lean", emit_chain(okn))
+    # seed-dependent programs of earlier runs that are not part of this run
+    from common import GEN
+    for d in [GEN / "LIN"] + [cert_dir / prop for prop in props]:
+        for f in d.glob("R[0-9][0-9][0-9].lean"):
+            if f.stem not in rand:
+                f.unlink()
     return info
 
 
